@@ -17,9 +17,9 @@ const (
 
 func init() {
 	register(&Property{
-		ID:  "C14",
-		Run: runC14,
-		Explain: "What every rendering path prints for an opaque value is determined by its method set, so most of this property is decided statically: (R1) the VALUE type configopaque.String (not only its pointer) implements fmt.Stringer, fmt.GoStringer, encoding.TextMarshaler and encoding.BinaryMarshaler, and any additional rendering interface it implements (fmt.Formatter, json/yaml marshalers) is subject to R2; (R2) no receiver flow: in every rendering method the receiver has no use at all and every returned string/[]byte derives only from constants (so the output is the same fixed marker for every secret, including the empty one); (R3) the underlying type is string (the explicit conversion still yields the secret) and the package exports no other function returning a string/[]byte derived from a String; (R4) declassification taint, repo-wide: every conversion of an opaque value to string/[]byte is checked: its result never reaches a formatting, logging or error-construction call and is never stored into a field or map held by a struct (where it would survive as a plain copy that renders in the clear); (R5) the config-map encoder cannot bypass the redacting hook: only the leaf-hook function returns raw values; every other encoder function returns recursion results, containers it built, or nil; the hook list of Conf.Marshal contains the text-marshaler hook and that hook returns MarshalText's output for values implementing encoding.TextMarshaler.",
+		ID:         "C14",
+		Run:        runC14,
+		Explain:    "What every rendering path prints for an opaque value is determined by its method set, so most of this property is decided statically: (R1) the VALUE type configopaque.String (not only its pointer) implements fmt.Stringer, fmt.GoStringer, encoding.TextMarshaler and encoding.BinaryMarshaler, and any additional rendering interface it implements (fmt.Formatter, json/yaml marshalers) is subject to R2; (R2) no receiver flow: in every rendering method the receiver has no use at all and every returned string/[]byte derives only from constants (so the output is the same fixed marker for every secret, including the empty one); (R3) the underlying type is string (the explicit conversion still yields the secret) and the package exports no other function returning a string/[]byte derived from a String; (R4) declassification taint, repo-wide: every conversion of an opaque value to string/[]byte is checked: its result never reaches a formatting, logging or error-construction call and is never stored into a field or map held by a struct (where it would survive as a plain copy that renders in the clear); (R5) the config-map encoder cannot bypass the redacting hook: only the leaf-hook function returns raw values; every other encoder function returns recursion results, containers it built, or nil; the hook list of Conf.Marshal contains the text-marshaler hook and that hook returns MarshalText's output for values implementing encoding.TextMarshaler.",
 		NotDecided: "Behaviour of fmt, encoding/json, yaml and zap themselves (trusted: they render through the standard interfaces); JSON map keys of string kind (never passed through MarshalText by encoding/json).",
 		Assumes:    []string{"fmt/encoding/json/yaml/zap render values through Stringer/GoStringer/TextMarshaler/BinaryMarshaler"},
 		Technique:  "static analysis: method-set/type facts (go/types), SSA referrer analysis (no receiver use), local taint from declassifying conversions to formatting sinks and struct-held storage, return-provenance in the encoder",
